@@ -119,6 +119,17 @@ def selection_rules(R, ro, P="C05"):
                 "every path to the candidate assignment crosses the not-flushed edge of %s.is_flushed()" % lv,
                 "an already flushed/cancelled batch can become the flush candidate",
                 cfg.fmt_path(p) if p else None)
+        if st is cand_stores[0]:
+            # the user hook is asked only of batches that can be flushed: a get_priority() override written for a pending, non-empty
+            # batch (max(item.urgency for item in self.items)) raises for an empty or finished one that is still on the list
+            for hn, hc in kit.call_sites(sel, lambda c: q.is_attr_call(c, "get_priority", lv)):
+                for gname, gfn in (("nonempty", nonempty), ("unflushed", unflushed)):
+                    ph = kit.path_avoiding_guard(cfg, [hn], gfn, N, sources=iter_starts)
+                    R.check(ph is None, P + ".SELECT-GUARD", "%s:hook-%s" % (sel.qualname, gname), R.site(sel, hc),
+                            "%s.get_priority() is asked only after the batch passed the %s test" % (lv, gname),
+                            "%s.get_priority() is asked of a batch that has not passed the %s test: a batch that is still listed although it is empty or has "
+                            "been flushed / cancelled meanwhile (a nested call, item.value()) reaches the user's override, whose exception escapes from "
+                            "wait_for() - nothing more is flushed" % (lv, gname), cfg.fmt_path(ph) if ph else None)
         # ARGMAX
         # current priority: a name assigned from <lv>.get_priority() in the loop, or the call
         cur_names = set(["%s.get_priority()" % lv])
@@ -346,6 +357,8 @@ def run(R):
                 "stack limit aborts a computation) - the before/after events of every later flush reach nobody" % (hook, ", ".join(w for w in writers if w != "__init__") or "no method at all"))
     common.hook_dispatch(R, "C05.HOOK-DISPATCH", ("batching.BatchBase", "batching.BatchItemBase"))
     common.no_mutation_while_iterating(R, "C05.SELECT-STABLE", ("scheduler.TaskScheduler", "batching.BatchBase"))
+    common.pending_removal_tolerant(R, ro, "C05.SELECT-STABLE")
+    common.scheduler_lookup_fresh(R, "C05.EVENTS")
 
     gp = ro.BatchBase.methods.get("get_priority")
     R.need(gp is not None, "anchor vanished: BatchBase.get_priority")
